@@ -82,12 +82,12 @@ class Mismatch(Exception):
         self.cls, self.ref, self.impl, self.tags = cls, ref_, impl, tags
 
 
-def expect_node(label, node, nd, ver, clause):
+def expect_node(label, node, nd, ver, clause, detail=""):
     got = fields_of(node)
     want = fields_of_ref(nd, ver)
     k = diff(want, got)
     if k is not None:
-        raise Mismatch("field-differs:%s" % label, "%s: %s" % (label, show(want, k)), show(got, k), clause=clause, field=k)
+        raise Mismatch("field-differs:%s" % label, "%s%s: %s" % (label, detail, show(want, k)), show(got, k), clause=clause, field=k)
 
 
 class Paths(Driver):
@@ -290,11 +290,21 @@ CLASSNAME = dict(bip32="BIP32Node", bip49="BIP49Node", bip84="BIP84Node")
 _NETCODES = []
 
 
+FALLBACK_CODES = ["BTC", "DOGE", "LTC", "XTN"]
+_REGISTRY_ERROR = []
+
+
 def netcodes():
+    """all registered network symbols; if pycoin's registry itself fails, a short fixed list (the per-network cases
+    then report the failure as disagreements instead of stopping the harness)"""
     if not _NETCODES:
-        from pycoin.networks.registry import network_codes
-        with contextlib.redirect_stdout(io.StringIO()):
-            _NETCODES.extend(sorted(network_codes()))
+        try:
+            from pycoin.networks.registry import network_codes
+            with contextlib.redirect_stdout(io.StringIO()):
+                _NETCODES.extend(sorted(network_codes()))
+        except Exception as e:
+            _NETCODES.extend(FALLBACK_CODES)
+            _REGISTRY_ERROR.append("EXC %s: %s" % (type(e).__name__, e))
     return _NETCODES
 
 
@@ -330,6 +340,9 @@ class Text(Driver):
 
     def execute(self, unit):
         code = unit["net"]
+        if _REGISTRY_ERROR and code == netcodes()[0]:
+            yield dict(net=code, registry=True), BAD("network-registry", "network_codes() lists the networks", _REGISTRY_ERROR[0],
+                                                     clause="network-registry")
         try:
             net = network(code)
             prefixes = {kind: (getattr(net.parse, "_%s_prv_prefix" % kind, None), getattr(net.parse, "_%s_pub_prefix" % kind, None))
@@ -354,6 +367,11 @@ class Text(Driver):
                                 yield case, self.run(case)
 
     def run(self, case):
+        if case.get("registry"):
+            netcodes()
+            if _REGISTRY_ERROR:
+                return BAD("network-registry", "network_codes() lists the networks", _REGISTRY_ERROR[0], clause="network-registry")
+            return OK("trivial-registry-ok")
         ver = dict(prv=bytes.fromhex(case["prv"]), pub=bytes.fromhex(case["pub"]))
         k = int(case["k"])
         nd = ref.node(int(case["depth"]), bytes.fromhex(case["fpr"]), int(case["child"]), bytes.fromhex(case["chain"]), k=k)
@@ -480,8 +498,9 @@ class Cache(Driver):
                 want_private = private_parent and a is not False
                 if not private_parent and a is True:
                     flags.add("private-of-public-gives-public")
-                expect_node("call %d subkey(%d,%s,%s)" % (step, i, h, a), child, rchild if want_private else ref.neuter(rchild),
-                            ver, "cache-privacy" if "privacy-switch" in flags else "subkey")
+                expect_node("subkey-call", child, rchild if want_private else ref.neuter(rchild), ver,
+                            "cache-privacy" if "privacy-switch" in flags else "subkey",
+                            detail=" %d subkey(%d, is_hardened=%s, as_private=%s)" % (step, i, h, a))
             expect_node("parent-after-history", parent, rparent, ver, "parent-mutated")
         except Mismatch as mm:
             return BAD(mm.cls, mm.ref, "after call %d: %s" % (step, mm.impl), n=step + 1, **mm.tags)
